@@ -172,7 +172,10 @@ def check(ctx: Ctx):
                       key=f'{rid}::{si.short}::density-argument')
     ctx.floor(rid, 'Evolvent construction sites in the solver', n, 1)
     # both level loops
-    for fn in (e.forward, e.inverse):
+    if e.opt('inv', 'descent') is None:
+        ctx.note('R20.2: the inverse descent is not recognised; its level count is decided (or declared undecided) '
+                 'under C09 - the trial coordinates of the search come from the forward descent only')
+    for fn in [f_ for f_ in (e.forward, e.opt('inv', 'descent')) if f_ is not None]:
         lp = e.level_loop(fn)
         it = lp.iter
         if fn is e.forward and e.level_table() is not None:
